@@ -65,7 +65,7 @@ PROPS = {
         "harness_timeout": 3000,
         "rule": "14 entry points (evaluate_expression on an identifier alphabet with exact prediction; evaluate_expression, GRLParser::parse_rules / parse_with_modules, QueryParser, ExpressionParser, GRLQueryParser::parse / parse_queries, "
                 "parse_stream_pattern / parse_stream_join_pattern, parse_aggregate_query, DisjunctionParser, NestedQueryParser::parse / has_nested on arbitrary text) x streams: random strings over the identifier alphabet; every "
-                "single insertion of 6 multi-byte characters into 5 expressions; 16 valid seed texts and their mutants (truncate, duplicate a segment, insert a multi-byte character / a token, splice with another seed, delete, "
+                "single insertion of 12 multi-byte characters (incl. 6 whose case mapping changes the UTF-8 length: U+0130, U+212A, U+023A, U+1E9E, U+0390, U+FB01) into 5 expressions; every seed x blank position x entry point with such a character directly before the blank, and with it earlier plus a multi-byte character after the following token; 16 valid seed texts and their mutants (truncate, duplicate a segment, insert a multi-byte character / a token, splice with another seed, delete, "
                 "replace by a delimiter); token soups of 48 GRL/query tokens; lossily decoded raw bytes; prefix chains and nestings (!, (, [, {, NOT, -, !(, exists() of depth 33, 500 and up to 4 KiB. The batch runs in a child "
                 "process: a panic is caught per case, a stack overflow/abort or 120 s without progress marks the case and the run continues. non-trivial = every case",
         "level_text": "Theorem for the expression evaluator, for EVERY string: no slice off a character boundary or out of range, termination with recursion depth <= length+1 (every slice of the code carries its byte offsets in the "
